@@ -5,7 +5,7 @@ VERIF = "/verif"
 REPO = os.environ.get("VERIF_REPO", "/repo")
 COQ = f"{VERIF}/coq"
 WORK = f"{VERIF}/work"
-ENV = dict(os.environ, GOFLAGS="-mod=mod", GOPROXY="off", GOSUMDB="off", GOTOOLCHAIN="local",
+ENV = dict(os.environ, VERIF_TMP="/verif/work", GOFLAGS="-mod=mod", GOPROXY="off", GOSUMDB="off", GOTOOLCHAIN="local",
            CGO_ENABLED="1")
 
 TRUSTED_BASE = [
